@@ -225,6 +225,10 @@ func obligationServes(p *Program, prop string, pc *PropConfig, r *FuncResult, o 
 			}
 		}
 	}
+	if o.Kind == "dec" && strings.Contains(o.ID, "#dec.missing@") {
+		// "every loop that is not a range needs a decreases clause" is the rule of parser totality only
+		return prop == "C07" && (sweep[r.ID] || hasProp(fprops, "C07"))
+	}
 	if hasProp(fprops, prop) {
 		// lock-discipline obligations belong to the properties that are about concurrency / failure atomicity
 		if strings.HasPrefix(o.Kind, "lock.") || o.Kind == "typeinv" {
@@ -355,10 +359,12 @@ func cmdCheck(args []string) int {
 		r.Obls = keep
 		total += nServed
 	}
-	timeout := 20 * time.Second
+	// every obligation of the unchanged tree is discharged in a few seconds on an idle machine; the limits leave a
+	// tenfold margin for a loaded one (a timeout of a baseline obligation counts as a violation)
+	timeout := 45 * time.Second
 	both := false
 	if *tier == "thorough" {
-		timeout = 90 * time.Second
+		timeout = 120 * time.Second
 		both = true
 	}
 	known := loadKnown()
@@ -370,6 +376,12 @@ func cmdCheck(args []string) int {
 		if k.Status == "known" {
 			knownByObl[k.Obligation] = k
 			knownIDs[k.Obligation] = true
+		}
+	}
+	if pc != nil {
+		// obligations listed as never proved get the same short round as known findings
+		for _, u := range pc.Unproved {
+			knownIDs[u] = true
 		}
 	}
 	out := tmpOutDir()
